@@ -25,9 +25,24 @@ inductive Val where
   | null                    -- `FactValue::Null`: equal to itself only, no float value
 deriving Repr, DecidableEq
 
-/-- `FactValue::as_float`, scaled by two (integers and exact half-integer floats) -/
+def log2f : Nat → Nat → Nat
+  | 0, _ => 0
+  | fuel + 1, n => if n ≥ 2 then log2f fuel (n / 2) + 1 else 0
+
+/-- round an integer significand to 53 bits, ties to even (`i64 as f64`, and the rounding of every f64 operation) -/
+def round53 (m : Int) : Int :=
+  let n := m.natAbs
+  if n < 2 ^ 53 then m else
+    let e := log2f n n - 52
+    let q := n / 2 ^ e
+    let r := n % 2 ^ e
+    let half := 2 ^ (e - 1)
+    let q' := if r > half || (r == half && q % 2 == 1) then q + 1 else q
+    (if m < 0 then -1 else 1) * ((q' * 2 ^ e : Nat) : Int)
+
+/-- `FactValue::as_float`, scaled by two (integers — `*i as f64`, rounded to 53 bits beyond 2^53 — and exact half-integer floats) -/
 def Val.twice? : Val → Option Int
-  | .int i => some (2 * i)
+  | .int i => some (2 * round53 i)
   | .flt t => some t
   | _ => none
 
@@ -90,6 +105,255 @@ def Data.set (d : Data) (f : Nat) (v : Val) : Data :=
   | [] => [(f, v)]
   | (k, w) :: t => if k == f then (k, v) :: t else (k, w) :: Data.set t f v
 
+
+/-! ### arithmetic (`src/expression.rs` for the right-hand sides of assignments, `src/rete/alpha.rs`
+`evaluate_arithmetic_rete` / `evaluate_arithmetic_expr` for `test(...)` conditions)
+
+Both evaluators work on `f64`.  The model computes on dyadic rationals `m / 2^k` and rounds the significand to 53 bits after
+every conversion and operation (`round53`: round-to-nearest-even, exponent range not modelled), which is what IEEE arithmetic does
+for `+ - *`, for `%` (`fmod` is exact) and for a division whose exact quotient is dyadic; a quotient that is not dyadic
+(`1 / 3`), NaN stored into a fact (`x % 0`) and floats that are not multiples of 1/2 as *stored* values are outside the modelled
+value domain (`inexact` — the harness flags runs in which such a value shows up, the generator stays clear of them). -/
+
+inductive AOp where
+  | add | sub | mul | div | mod
+deriving Repr, DecidableEq
+
+/-- an operand as it is written in the text: a non-negative number (`twice / 2`, printed `n` or `n.5`), a field reference
+`T<ty>.f<field>`, or a quoted word (string identifier) -/
+inductive Atom where
+  | num (twice : Nat)
+  | fld (ty field : Nat)
+  | word (s : Nat)
+deriving Repr, DecidableEq
+
+/-- a flat expression `a₀ op₁ a₁ op₂ a₂ …` (neither evaluator knows parentheses) -/
+structure Expr where
+  head : Atom
+  tail : List (AOp × Atom) := []
+deriving Repr, DecidableEq
+
+structure Dy where
+  m : Int
+  k : Nat := 0
+deriving Repr, DecidableEq
+
+/-- `f64 as i64` (saturating) -/
+def clampI64 (i : Int) : Int := if i < -(2 ^ 63) then -(2 ^ 63) else if i > 2 ^ 63 - 1 then 2 ^ 63 - 1 else i
+
+def Dy.whole (a : Dy) : Bool := a.m % ((2 ^ a.k : Nat) : Int) == 0
+def Dy.toInt (a : Dy) : Int := a.m / ((2 ^ a.k : Nat) : Int)
+def Dy.rnd (a : Dy) : Dy := { a with m := round53 a.m }
+/-- twice the value, when that is an integer (the value is a multiple of 1/2) -/
+def Dy.twice? (a : Dy) : Option Int :=
+  if (2 * a.m) % ((2 ^ a.k : Nat) : Int) == 0 then some ((2 * a.m) / ((2 ^ a.k : Nat) : Int)) else none
+
+/-- `n = 2^j · g`, `g` odd (for `n > 0`) -/
+def oddPart : Nat → Nat → Nat × Nat
+  | 0, n => (0, n)
+  | fuel + 1, n => if n % 2 == 0 && n != 0 then let r := oddPart fuel (n / 2); (r.1 + 1, r.2) else (0, n)
+
+inductive ARes where
+  | fin (d : Dy)
+  | divZero
+  | nan
+  | inexact
+deriving Repr, DecidableEq
+
+/-- one f64 operation -/
+def arith (op : AOp) (a b : Dy) : ARes :=
+  let k := max a.k b.k
+  let am := a.m * ((2 ^ (k - a.k) : Nat) : Int)
+  let bm := b.m * ((2 ^ (k - b.k) : Nat) : Int)
+  match op with
+  | .add => .fin (Dy.rnd { m := am + bm, k := k })
+  | .sub => .fin (Dy.rnd { m := am - bm, k := k })
+  | .mul => .fin (Dy.rnd { m := a.m * b.m, k := a.k + b.k })
+  | .mod => if b.m == 0 then .nan else .fin { m := Int.tmod am bm, k := k }
+  | .div =>
+    if b.m == 0 then .divZero else
+      -- value = am / bm;  |bm| = 2^j · g with g odd: dyadic iff g divides am
+      let jg := oddPart bm.natAbs bm.natAbs
+      let g : Int := (jg.2 : Int) * (if bm < 0 then -1 else 1)
+      if am % g == 0 then .fin (Dy.rnd { m := am / g, k := jg.1 }) else .inexact
+
+def isAddSub : AOp → Bool
+  | .add | .sub => true
+  | _ => false
+
+/-- index of the last operator of the tail that satisfies `p` (`rfind` / `find_operator`) -/
+def lastIdx (p : AOp → Bool) : List (AOp × Atom) → Nat → Option Nat → Option Nat
+  | [], _, acc => acc
+  | (o, _) :: t, i, acc => lastIdx p t (i + 1) (if p o then some i else acc)
+
+/-- where the text is split: the operator classes are tried in order, the rightmost operator of the first class that occurs
+wins.  `src/expression.rs`: `+ -`, then `* / %` (the usual precedence, left-associative).  `src/rete/alpha.rs` before fix-C06e:
+`+`, then `-`, then `*`, then `/`, then `%`, each on its own — `a * b % c` was read as `a * (b % c)`. -/
+def splitIdx (classes : List (AOp → Bool)) (tail : List (AOp × Atom)) : Option Nat :=
+  classes.findSome? (fun p => lastIdx p tail 0 none)
+
+def stdClasses : List (AOp → Bool) := [isAddSub, fun o => !isAddSub o]
+/-- `evaluate_arithmetic_expr` BEFORE fix-C06e: every operator a class of its own (`a * b % c` = `a * (b % c)`, `a / b % c` =
+`a / (b % c)`) -/
+def alphaClassesPreFix : List (AOp → Bool) := [(· == .add), (· == .sub), (· == .mul), (· == .div), (· == .mod)]
+/-- `evaluate_arithmetic_expr` [after fix-C06e]: the two classes of `src/expression.rs` -/
+def alphaClasses : List (AOp → Bool) := stdClasses
+
+/-- the recursive descent both evaluators share (`fuel` = number of operators: every split leaves fewer on either side) -/
+def evalSplit {R : Type} (classes : List (AOp → Bool)) (leaf : Atom → R) (app : AOp → R → R → R) : Nat → Atom → List (AOp × Atom) → R
+  | 0, a, _ => leaf a
+  | fuel + 1, a, tail =>
+    match splitIdx classes tail with
+    | none => leaf a
+    | some i =>
+      match tail.drop i with
+      | (o, b) :: rest => app o (evalSplit classes leaf app fuel a (tail.take i)) (evalSplit classes leaf app fuel b rest)
+      | [] => leaf a
+
+def Expr.evalWith {R : Type} (classes : List (AOp → Bool)) (leaf : Atom → R) (app : AOp → R → R → R) (e : Expr) : R :=
+  evalSplit classes leaf app e.tail.length e.head e.tail
+
+/-- text of the word `a ++ b` for two words over {a, b, c} (identifiers ≥ 10000) -/
+def wordConcat (a b : Nat) : Nat :=
+  10000 + (a - 10000) * 4 ^ (wordLetters (b - 10000 + 1) (b - 10000)).length + (b - 10000)
+
+/-- the string that stands for a value outside the modelled domain (never produced by the generator) -/
+def unmodelled : Val := .str 999
+
+/-- a `types::Value` during the evaluation of a right-hand side: `Integer`, `Number` (dyadic), or anything else -/
+inductive XV where
+  | int (i : Int)
+  | num (d : Dy)
+  | other (v : Val)
+  | err                      -- `Err(_)`: unknown field, non-numeric operand, division by zero
+  | inexact
+deriving Repr, DecidableEq
+
+/-- `fact_value_to_value` (strings of the typed core never parse as numbers or booleans) -/
+def XV.ofVal : Val → XV
+  | .int i => .int i
+  | .flt t => .num { m := t, k := 1 }
+  | v => .other v
+
+/-- `value_to_number` -/
+def XV.num? : XV → Option Dy
+  | .int i => some { m := round53 i }
+  | .num d => some d
+  | _ => none
+
+/-- `apply_operator` -/
+def XV.apply (op : AOp) (l r : XV) : XV :=
+  match l, r with
+  | .err, _ => .err                         -- `evaluate_expression(left)?` / `(right)?`
+  | _, .err => .err
+  | .inexact, _ => .inexact
+  | _, .inexact => .inexact
+  | _, _ =>
+    match l.num?, r.num? with
+    | some a, some b =>
+      (match arith op a b with
+       | .fin d =>
+         (match l, r with
+          | .int _, .int _ => if d.whole then .int (clampI64 d.toInt) else .num d
+          | _, _ => .num d)
+       | .divZero => .err
+       | .nan => .inexact
+       | .inexact => .inexact)
+    | _, _ =>
+      if op == .add then
+        (match l, r with
+         | .other (.str a), .other (.str b) => if a ≥ 10000 && b ≥ 10000 then .other (.str (wordConcat a b)) else .inexact
+         | _, _ => .err)
+      else .err
+
+/-- `value_to_fact_value` of the result; `sid` = identifier of the expression's own text, which is what an `Err` stores
+(`evaluate_expression_for_rete`: "silently fallback") -/
+def XV.store (sid : Nat) : XV → Val
+  | .int i => .int i
+  | .num d =>
+    if d.whole then .int (clampI64 d.toInt)
+    else (match d.twice? with | some t => .flt t | none => unmodelled)
+  | .other v => v
+  | .err => .str sid
+  | .inexact => unmodelled
+
+/-- `look t f` = the key `T<t>.f<f>` of the flattened copy -/
+def Atom.xv (look : Nat → Nat → Option Val) : Atom → XV
+  | .num t => if t % 2 == 0 then .int (t / 2 : Nat) else .num { m := t, k := 1 }
+  | .fld t f => (match look t f with | some v => XV.ofVal v | none => .err)
+  | .word s => .other (.str s)
+
+/-- `evaluate_expression_for_rete` + `value_to_fact_value`: the value an assignment `T.f = <expr>` stores -/
+def Expr.actXV (look : Nat → Nat → Option Val) (e : Expr) : XV := e.evalWith stdClasses (Atom.xv look) XV.apply
+
+def Expr.actVal (look : Nat → Nat → Option Val) (sid : Nat) (e : Expr) : Val := (e.actXV look).store sid
+
+/-- the value of a `test(...)` left-hand side: `fail` = the evaluator gave up (`None`) (the test is false) -/
+inductive TV where
+  | val (v : Val)            -- `Integer` (whole results), `Float` (multiples of 1/2), or a field's value as it is (no operator)
+  | frac (d : Dy)            -- a `Float` that is not a multiple of 1/2
+  | nan
+  | fail
+deriving Repr, DecidableEq
+
+/-- `FactValue::as_number` -/
+def TV.num? : TV → Option (Option Dy)     -- `some none` = NaN
+  | .val (.int i) => some (some { m := round53 i })
+  | .val (.flt t) => some (some { m := t, k := 1 })
+  | .frac d => some (some d)
+  | .nan => some none
+  | _ => none
+
+/-- "Return Integer if result is whole number, otherwise Float" -/
+def TV.ofDy (d : Dy) : TV :=
+  if d.whole then .val (.int (clampI64 d.toInt)) else (match d.twice? with | some t => .val (.flt t) | none => .frac d)
+
+/-- one step of `evaluate_arithmetic_expr` -/
+def TV.apply (op : AOp) (l r : TV) : TV :=
+  match l.num?, r.num? with
+  | some a, some b =>
+    (match a, b with
+     | some x, some y =>
+       (match arith op x y with
+        | .fin d => TV.ofDy d
+        | .divZero => .fail              -- `"/" if right_val != 0.0`, otherwise `_ => return None`
+        | .nan => .nan
+        | .inexact => .fail)             -- outside the modelled domain
+     | _, some y => if op == .div && y.m == 0 then .fail else .nan
+     | _, none => .nan)
+  | _, _ => .fail
+
+def Atom.tv (look : Nat → Nat → Option Val) : Atom → TV
+  | .num t => if t % 2 == 0 then .val (.int (t / 2 : Nat)) else .val (.flt t)
+  | .fld t f => (match look t f with | some v => .val v | none => .fail)
+  | .word _ => .fail
+
+/-- `left_val.compare(op, &right_val)` for a computed left-hand side -/
+def TV.compare (l : TV) (op : Cmp) (r : Val) : Bool :=
+  match l with
+  | .val v => v.compare op r
+  | .nan => op == .ne
+  | .frac d =>
+    (match op with
+     | .ne => true
+     | .lt => (match r.twice? with | some y => decide (2 * d.m < y * ((2 ^ d.k : Nat) : Int)) | none => false)
+     | .le => (match r.twice? with | some y => decide (2 * d.m ≤ y * ((2 ^ d.k : Nat) : Int)) | none => false)
+     | .gt => (match r.twice? with | some y => decide (2 * d.m > y * ((2 ^ d.k : Nat) : Int)) | none => false)
+     | .ge => (match r.twice? with | some y => decide (2 * d.m ≥ y * ((2 ^ d.k : Nat) : Int)) | none => false)
+     | _ => false)
+  | .fail => false
+
+/-- an arithmetic condition `<expr> <cmp> <rhs>` (`Condition::with_test`: the alpha node `test(<text>) == true`);
+`classes` = how the text is split (the code: `alphaClasses`) -/
+def testEval (classes : List (AOp → Bool)) (look : Nat → Nat → Option Val) (e : Expr) (op : Cmp) (rhs : Atom) : Bool :=
+  match e.evalWith classes (Atom.tv look) TV.apply with
+  | .fail => false
+  | l =>
+    match rhs with
+    | .num t => l.compare op (if t % 2 == 0 then .int (t / 2 : Nat) else .flt t)
+    | .fld t f => (match look t f with | some v => l.compare op v | none => false)
+    | .word _ => false
+
 /-- right-hand side of an alpha node: a literal, or a variable reference `Type.field` -/
 inductive Rhs where
   | lit (v : Val)
@@ -102,6 +366,7 @@ inductive Node where
   | and (l r : Node)
   | or (l r : Node)
   | not (n : Node)
+  | test (e : Expr) (op : Cmp) (rhs : Atom)   -- `test(<expr> <op> <rhs>)` (an arithmetic left-hand side in GRL)
 deriving Repr, DecidableEq
 
 /-- the literal string "Type.field" a dangling variable reference degrades to (`parse_value_string`) -/
@@ -121,13 +386,31 @@ def Node.eval (ty : Nat) (d : Data) : Node → Bool
   | .and l r => l.eval ty d && r.eval ty d
   | .or l r => l.eval ty d || r.eval ty d
   | .not n => !n.eval ty d
+  | .test e op rhs => testEval alphaClasses (fun t f => if t == ty then d.get f else none) e op rhs
 
 /-- actions GRL produces for a single-type rule: assignments of literals to fields of the rule's type, optionally
 followed by `retract(Type)` -/
 structure Action where
   sets : List (Nat × Val) := []
   retract : Bool := false
+  /-- assignments `T.f = <expr>` (executed after the literal ones, in order): field, expression, identifier of the expression's
+  text as a string (what is stored when the evaluation fails) -/
+  xsets : List (Nat × Expr × Nat) := []
 deriving Repr, DecidableEq
+
+/-- the expression assignments one after the other on the flattened copy: each is evaluated on the contents as the earlier
+assignments left them (`execute_action`: `evaluate_expression_for_rete(expr, facts)` then `facts.set`).  `d` = the fields of the
+rule's own type, `other t` = the fields of type `t ≠ ty` (assignments only write fields of the rule's type). -/
+def resolveX (ty : Nat) (other : Nat → Data) : Data → List (Nat × Expr × Nat) → List (Nat × Val)
+  | _, [] => []
+  | d, (f, e, sid) :: rest =>
+    let v := e.actVal (fun t k => if t == ty then d.get k else (other t).get k) sid
+    (f, v) :: resolveX ty other (d.set f v) rest
+
+/-- everything the action assigns, as literal assignments, when it runs on the flattened copy whose fields of the rule's type
+are `orig` -/
+def Action.resolve (a : Action) (ty : Nat) (other : Nat → Data) (orig : Data) : List (Nat × Val) :=
+  a.sets ++ resolveX ty other (a.sets.foldl (fun d kv => Data.set d kv.1 kv.2) orig) a.xsets
 
 structure Rule where
   name : Nat
@@ -284,6 +567,10 @@ def writeBack (w : WM) (ty : Nat) (sets : List (Nat × Val)) : WM :=
   else { w with facts := w.facts.map (fun f =>
     if f.ty == ty && !f.retracted then { f with data := changed.foldl (fun d kv => Data.set d kv.1 kv.2) f.data } else f) }
 
+/-- what the action of `rule` assigns when it runs now (the expressions read the flattened copy of working memory) -/
+def Engine.setsOf (e : Engine) (rule : Rule) : List (Nat × Val) :=
+  rule.action.resolve rule.ty (fun t => flatOf e.wm t) (flatOf e.wm rule.ty)
+
 /-- a firing as seen by the action closure: rule, matched handle, contents of the matched fact in the flattened copy -/
 structure Firing where
   rule : Nat
@@ -304,7 +591,7 @@ def Engine.fireOne (e : Engine) (a : Act) : Engine × Option Firing :=
       | some f =>
         if !rule.node.eval f.ty f.data then (e, none)     -- fix-C06: stale activation, the condition is no longer true
         else
-          let w1 := writeBack e.wm rule.ty rule.action.sets
+          let w1 := writeBack e.wm rule.ty (e.setsOf rule)
           let e1 := ({ e with wm := w1 }).propagateAll
           -- action results: `retract(Type)` resolves to the matched handle when the matched fact has the rule's type
           let target := if f.ty == rule.ty then some h else (e.wm.getAllFacts.filter (·.ty == rule.ty)).getLast?.map (·.handle)
@@ -396,6 +683,7 @@ def loaderNode : Node → Node
   | .and l r => .and (loaderNode l) (loaderNode r)
   | .or l r => .or (loaderNode l) (loaderNode r)
   | .not n => .not (loaderNode n)
+  | .test e op rhs => .test e op rhs       -- the text of the expression is carried as it is
 
 /-- `convert_rule_to_rete`: name, salience, no-loop are copied -/
 def loaderRule (r : Rule) : Rule :=
@@ -414,5 +702,6 @@ def Node.grlExact : Node → Bool
   | .and l r => l.grlExact && r.grlExact
   | .or l r => l.grlExact && r.grlExact
   | .not n => n.grlExact
+  | .test _ _ _ => true
 
 end C06
